@@ -226,4 +226,4 @@ def check_foreign_words(ctx, T):
             out = [('crash', str(e))]
         ok = len(out) == 1 and tuple(out[0]) == (TT(('Name',)), w)
         ctx.ob('R14.10', f'foreign:{w}', loc, f'the word {w!r} (casefold {w.casefold()!r} is in no dictionary) is one Name token', ok,
-               f'tokenize({w!r}) gives {out!r}: is_keyword compares str.upper() of the word, which maps this letter onto an ASCII one')
+               f'tokenize({w!r}) gives {out!r}: the lexer equates a letter of the word with an ASCII one (str.upper() in is_keyword, or re.IGNORECASE in a dedicated word rule)')
